@@ -289,6 +289,34 @@ def install_common(ex: Executor):
     def store(t, v, st, node):
         return orig_store(t, v.id if isinstance(v, Tok) and isinstance(t, ast.Subscript) else v, st, node)
     ex.store = store
+    # a token's text looked up in a dict with literal string keys (keyword tables)
+    from pyvc.values import PyDict
+    orig_contains = ex.contains
+
+    def contains(container, item, st, line):
+        c = st.deref(container)
+        if isinstance(item, tuple) and item and item[0] == "tokvalue" and isinstance(c, PyDict):
+            ks = [k for k in c.items if isinstance(k, str)]
+            return z3.Or(*[tstr(item[1].id) == strc(k) for k in ks]) if ks else z3.BoolVal(False)
+        return orig_contains(container, item, st, line)
+    ex.contains = contains
+    orig_subscript = ex.subscript
+
+    def subscript(base, idx, st, node):
+        c = st.deref(base)
+        if isinstance(idx, tuple) and idx and idx[0] == "tokvalue" and isinstance(c, PyDict):
+            ks = [k for k in c.items if isinstance(k, str)]
+            # one entry per literal key: the path condition decides which one it is (values may be of different kinds)
+            for k in ks:
+                s2 = st.clone()
+                s2.pc.append(tstr(idx[1].id) == strc(k))
+                if ex.feasible(s2):
+                    st.pc.append(tstr(idx[1].id) == strc(k))
+                    return (c.items[k], st)
+            ex.oblige("exc-free", st, z3.BoolVal(False), getattr(node, "lineno", 0), "KeyError")
+            return (Raised(Exc("KeyError", getattr(node, "lineno", 0))), st)
+        return orig_subscript(base, idx, st, node)
+    ex.subscript = subscript
 
 
 def install_token_values(ex: Executor):
@@ -376,6 +404,8 @@ def node_ctor(kindname: str):
     def apply(ex: Executor, st: State, cls, args, kwargs, line):
         node = fresh(kindname.lower(), I)
         st.pc.append(kind(node) == K[kindname])
+        if getattr(ex, "module_init", False):
+            st.ghost.setdefault("static_nodes", []).append(node)       # created at import time: shared between all parses
         items = st.deref(args[0]) if args else None
         if isinstance(items, ListV):
             ex.oblige("call-pre", st, nodes_only(items), line, f"{kindname}(children):children-are-nodes")
